@@ -491,29 +491,32 @@ def c04(tier):
 
 def c01(tier):
     levels = [0, 1, 2, 3, 4, 7]
-    per = {"E": 6000, "rnd": 3000, "S": 6000, "R": 300, "M": 2000, "N": 500, "L": 1500, "G": 1500} \
-        if tier == "quick" else \
-        {"E": 60000, "rnd": 60000, "S": 150000, "R": 400, "M": 40000, "N": 10000, "L": 40000, "G": 30000}
+    per = {"E": 6000, "rnd": 3000, "S": 6000, "R": 300, "M": 2000, "N": 500, "L": 1500, "G": 1500, "I": 400,
+           "W": 600} if tier == "quick" else \
+        {"E": 60000, "rnd": 60000, "S": 150000, "R": 400, "M": 40000, "N": 10000, "L": 40000, "G": 30000, "I": 8000,
+         "W": 12000}
     return run_equivalence("C01", tier, lambda c: [{"backend": "irint", "level": l} for l in levels],
-                           ["E", "rnd", "S", "R", "M", "N", "L", "G"], per,
+                           ["E", "rnd", "S", "R", "M", "N", "L", "G", "I", "W"], per,
                            adjudicate_max=2500 if tier == "quick" else 80000)
 
 
 def c02(tier):
-    per = {"E": 6000, "rnd": 2000, "S": 4000, "R": 300, "M": 1500, "N": 800, "T": 200, "L": 1500} \
-        if tier == "quick" else \
-        {"E": 60000, "rnd": 40000, "S": 100000, "R": 400, "M": 30000, "N": 20000, "T": 2000, "L": 40000}
+    per = {"E": 6000, "rnd": 2000, "S": 4000, "R": 300, "M": 1500, "N": 800, "T": 200, "L": 1500, "I": 600, "G": 600,
+           "W": 2500} if tier == "quick" else \
+        {"E": 60000, "rnd": 40000, "S": 100000, "R": 400, "M": 30000, "N": 20000, "T": 2000, "L": 40000, "I": 12000,
+         "G": 12000, "W": 8000}
     return run_equivalence("C02", tier, lambda c: [{"backend": "bcint", "level": l} for l in range(4)],
-                           ["E", "rnd", "S", "R", "M", "N", "T", "L"], per, profiles=("release", "debug"),
+                           ["E", "rnd", "S", "R", "M", "N", "T", "L", "I", "G", "W"], per, profiles=("release", "debug"),
                            adjudicate_max=5000 if tier == "quick" else 120000)
 
 
 def c03(tier):
-    per = {"E": 6000, "rnd": 2000, "S": 4000, "R": 300, "M": 1500, "N": 2500, "T": 200, "L": 8000} \
-        if tier == "quick" else \
-        {"E": 60000, "rnd": 40000, "S": 100000, "R": 400, "M": 30000, "N": 60000, "T": 2000, "L": 120000}
+    per = {"E": 6000, "rnd": 2000, "S": 4000, "R": 300, "M": 1500, "N": 2500, "T": 200, "L": 8000, "I": 600, "G": 600,
+           "W": 2500} if tier == "quick" else \
+        {"E": 60000, "rnd": 40000, "S": 100000, "R": 400, "M": 30000, "N": 60000, "T": 2000, "L": 120000, "I": 12000,
+         "G": 12000, "W": 8000}
     return run_equivalence("C03", tier, lambda c: [{"backend": "jit", "level": l} for l in range(4)],
-                           ["E", "rnd", "S", "R", "M", "N", "T", "L"], per,
+                           ["E", "rnd", "S", "R", "M", "N", "T", "L", "I", "G", "W"], per,
                            adjudicate_max=2500 if tier == "quick" else 80000)
 
 
@@ -684,9 +687,9 @@ def c05(tier):
     bins = build_harness(("release",))
     hv = bins["release"]
     sd = seed()
-    per = {"D": 1200, "R": 250, "E": 6000, "M": 600, "S": 300} if tier == "quick" else \
-          {"D": 4000, "R": 400, "E": 60000, "M": 8000, "S": 3000, "rnd": 3000}
-    pops, per = dev_pops(["D", "R", "E", "M", "S", "rnd"], per)
+    per = {"D": 1200, "R": 250, "E": 6000, "M": 1500, "S": 300, "W": 3000} if tier == "quick" else \
+          {"D": 4000, "R": 400, "E": 60000, "M": 8000, "S": 3000, "rnd": 3000, "W": 40000}
+    pops, per = dev_pops(["D", "R", "E", "M", "S", "rnd", "W"], per)
     cases = override_cases() or population(hv, tier, sd, pops, per)
     refs = pool.simple_requests(hv, [{"op": "ref", "id": c["id"], "prog": c["prog"], "w": c["w"],
                                       "input": c["input"], "maxSteps": 5000, "maxEv": 250} for c in cases])
@@ -696,7 +699,7 @@ def c05(tier):
     halts = [c for c, r in zip(cases, refs) if r and r.get("class") == "halts" and r.get("iters", 0) >= 1]
     rng.shuffle(divs)
     rng.shuffle(halts)
-    nd, nh = (700, 400) if tier == "quick" else (8000, 6000)
+    nd, nh = (700, 900) if tier == "quick" else (8000, 12000)
     divs, halts = divs[:nd], halts[:nh]
     hid = {c["id"] for c in halts}
     # sample of divergent cases that are really left running under execute()
@@ -713,7 +716,20 @@ def c05(tier):
             runs += config_runs(dict({"mode": "exec", "stream": 1, "watchdog": 2.5, "expectHang": 1}, **SINK))
         return runs
 
-    executed = bf.execute(hv, halts + divs, runs_for)
+    # terminating side: every halting case runs on all 13 configurations; all cases whose recordings
+    # differ (or that hang) go to TLC, the agreeing ones are sampled
+    allh = [c for c, r in zip(cases, refs) if r and r.get("class") == "halts"]       # also loops that are skipped
+    exh = bf.execute(hv, allh, lambda c: config_runs({"mode": "exec"}), screen=SCREEN)
+    exh = [e for e in exh if e[3].get("refclass") == "halts"]
+    dis = [e for e in exh if not e[3].get("agree")]
+    agr = [e for e in exh if e[3].get("agree")]
+    rng.shuffle(agr)
+    rep.count("halting_cases_prescreened_on_all_backends", len(exh))
+    rep.count("halting_cases_with_differing_recordings", len(dis))
+    chosen_h = dis + agr[:nh]
+    halts = [e[0] for e in chosen_h]
+    hid = {c["id"] for c in halts}
+    executed = bf.execute(hv, divs, runs_for) + chosen_h
     still_running = sum(1 for e in executed for r in e[2] if r is not None and "hung" in r)
     rep.count("cases_divergent", len(divs))
     rep.count("cases_halting", len(halts))
